@@ -195,7 +195,15 @@ pub fn pair_strategy() -> BoxedStrategy<PairCase> {
             p: format!("She finished {a} in the {w1} and {c} too.\n\n"),
             d: format!("He came in {b} at the {w2}, then {a} again on the {b} of May."),
         });
-    prop_oneof![5 => independent, 3 => shared, 1 => misspelt, 2 => abbrev, 1 => ordinals].boxed()
+    // D opens with something rules treat specially at the beginning of a text: list markers,
+    // amounts, symbols, numbers, quotes-free punctuation
+    let openers = (
+        first_paragraph(),
+        g::sel_str(&["1. Preheat the oven.\n2. Mix the flour.\n3. Bake it.", "2) Mix it well.", "25 $ was the fee we had agreed on.", "$ 40 is too much.", "30 € per head.", "3 apples fell.", "- a dash first", "* star first", "(in brackets) it began.", "...and so on.", "& more", "9 out of 10 agree.", "a. first item", "I. Introduction", "#1 is best", "@home we rest", "%s is a format", "1st prize went to her.", "'tis the season"]),
+        g::sentence(),
+    )
+        .prop_map(|(p, open, rest)| PairCase { p, d: format!("{open} {rest}") });
+    prop_oneof![5 => independent, 3 => shared, 1 => misspelt, 2 => abbrev, 1 => ordinals, 2 => openers].boxed()
 }
 
 pub fn run(run: &mut Run) {
